@@ -528,6 +528,20 @@ def run(ctx: vlib.Ctx):
             seen_sig.add(sig)
             src, specs = progs[n][0], (r.get("specs") or progs[n][1])
             spec = specs[f[1]] if f[1] >= 0 else specs[0]
+            eats = [k for k in ("l", "o") if spec[k].get("k") == "eat"]
+            if eats and "BRANCH" in f[0] and f[2] in ("value", "iterator", "stdout", "state", "raises", "swallows", "exctype"):
+                # a membership test that itself consumes its container: the tracer evaluates the subject's
+                # operator once more, which is observable for a stateful operator.  Classified separately only
+                # if the same run with a non-consuming __contains__ shows no difference.
+                spec2 = json.loads(json.dumps(spec))
+                for k in eats:
+                    spec2[k]["k"] = "peek"
+                r2 = I.differential_isolated(src, str(scratch / f"eat_{n}.py"), [spec2], [tuple(f[0])])
+                if not r2["fails"]:
+                    sig = "diff:stateful-membership:" + f[2]
+                    if sig in seen_sig:
+                        continue
+                    seen_sig.add(sig)
             small = src
             if f[2] not in ("harness",):
                 try:
